@@ -766,6 +766,66 @@ w('C16', '(repaired tree) deposits to unknown bridges create state export cannot
 w('C16', 'BENIGN: import loop uses an index variable', '',
   (HG, '\t\tfor _, tokenPair := range bridge.TokenPairs {\n\t\t\tif err := k.SetTokenPair(ctx, bridgeId, tokenPair.L2Denom, tokenPair.L1Denom); err != nil {', '\t\tfor i := 0; i < len(bridge.TokenPairs); i++ {\n\t\t\ttokenPair := bridge.TokenPairs[i]\n\t\t\tif err := k.SetTokenPair(ctx, bridgeId, tokenPair.L2Denom, tokenPair.L1Denom); err != nil {'))
 
+
+# ---------------- seeded sub-agent changes as witnesses (seeded/<id>/patch.diff -> hunk edits)
+import re, glob
+def patch_edits(path):
+    """Convert a unified diff into (relpath, old, new) edits, one per hunk; the hunk's position comes from its
+    @@ header and the context is widened upwards until the old text is unique in /repo's file."""
+    edits=[]; rel=None; hunks=[]
+    cur=None
+    for line in open(path):
+        if line.startswith('diff --git'):
+            rel=None
+        elif line.startswith('+++ '):
+            rel=line[4:].strip(); rel=rel[2:] if rel.startswith('b/') else rel
+        elif line.startswith('--- ') or line.startswith('index ') or line.startswith('new file') or line.startswith('\\'):
+            continue
+        elif line.startswith('@@'):
+            m=re.match(r'@@ -(\d+)', line)
+            cur={'rel':rel,'start':int(m.group(1)),'old':[],'new':[]}; hunks.append(cur)
+        elif cur is not None and rel is not None:
+            if line.startswith('+'): cur['new'].append(line[1:])
+            elif line.startswith('-'): cur['old'].append(line[1:])
+            else:
+                t=line[1:] if line.startswith(' ') else line
+                cur['old'].append(t); cur['new'].append(t)
+    for h in hunks:
+        src=open(os.path.join('/repo',h['rel'])).read()
+        lines=src.splitlines(keepends=True)
+        st=h['start']-1
+        assert ''.join(lines[st:st+len(h['old'])])==''.join(h['old']), (path,h['rel'],h['start'])
+        old=''.join(h['old']); new=''.join(h['new']); k=st
+        while src.count(old)!=1 and k>0:
+            k-=1; old=lines[k]+old; new=lines[k]+new
+        assert src.count(old)==1
+        edits.append((h['rel'],old,new))
+    return edits
+def wseed(sid, expect, prop=None):
+    d=os.path.join(HERE,'..','seeded',sid)
+    meta=json.load(open(os.path.join(d,'meta.json')))
+    prop=prop or meta['property']
+    eds=patch_edits(os.path.join(d,'patch.diff'))
+    # merge multiple hunks of one file so that each edit's old text is unique: verify against /repo
+    for rel,old,new in eds:
+        src=open(os.path.join('/repo',rel)).read()
+        assert src.count(old)==1, (sid, rel, src.count(old))
+    w(prop, 'SEEDED '+sid+': '+meta['summary'][:90].replace('\n',' '), expect, *eds, note='sub-agent change seeded/'+sid)
+wseed('C01','C01.R4'); wseed('C02','C02.R1'); wseed('C03','C03.R1'); wseed('C04','C04.R5'); wseed('C05','C05.R4')
+wseed('C06','C06.R2'); wseed('C07','C07.R2'); wseed('C08','C08.R4'); wseed('C09','C09.R4'); wseed('C10','C10.R1')
+wseed('C11','C11.R2'); wseed('C12','C12.R6'); wseed('C13','C13.R3'); wseed('C14','C14.R6'); wseed('C14','C13.R5',prop='C13')
+wseed('C15','C15.R3'); wseed('C16','C16.R6'); wseed('C17','C17.R3'); wseed('C18','C18.R6'); wseed('C19','C19.R3'); wseed('C20','C20.R1')
+w('C15', 'non-commit votes may carry an extension (emptiness check dropped)', 'C15.R3',
+  ('x/opchild/l2connect/utils.go', '\t\tif vote.BlockIdFlag != cmtproto.BlockIDFlagCommit && len(vote.VoteExtension) != 0 {', '\t\tif false && vote.BlockIdFlag != cmtproto.BlockIDFlagCommit && len(vote.VoteExtension) != 0 {'))
+w('C15', 'commit votes with an empty signature are skipped instead of rejected', 'C15.R3',
+  ('x/opchild/l2connect/utils.go', '\t\tif vote.BlockIdFlag == cmtproto.BlockIDFlagCommit && len(vote.ExtensionSignature) == 0 {\n\t\t\treturn fmt.Errorf("vote extension signature is missing; validator addr %s",\n\t\t\t\tvote.Validator.String(),\n\t\t\t)\n\t\t}', '\t\tif vote.BlockIdFlag == cmtproto.BlockIDFlagCommit && len(vote.ExtensionSignature) == 0 {\n\t\t\tcontinue\n\t\t}'))
+w('C16', 'BENIGN: per-bridge claim slice pre-sized with make inside the callback', '',
+  (HG, '\t\tvar provenWithdrawals [][]byte\n', '\t\tprovenWithdrawals := make([][]byte, 0, 8)\n'))
+w('C16', 'token pairs accumulator reset by re-slicing a buffer captured from ExportGenesis', 'C16.R6',
+  (HG, '\tvar bridges []types.Bridge\n', '\tvar bridges []types.Bridge\n\tvar tpBuf []types.TokenPair\n'),
+  (HG, '\t\tvar tokenPairs []types.TokenPair\n', '\t\ttokenPairs := tpBuf[:0]\n'),
+  (HG, '\t\tbridges = append(bridges, types.Bridge{', '\t\ttpBuf = tokenPairs\n\t\tbridges = append(bridges, types.Bridge{'))
+#@@SEEDS@@
 #@@MORE@@
 for p,l in W.items():
     json.dump(l, open(os.path.join(HERE,p+'.json'),'w'), indent=1)
